@@ -22,7 +22,7 @@ if ! go build ./... 2>/tmp/seedbuild.$$; then echo "$P-$M: DOES-NOT-BUILD $(head
 rm -f /tmp/seedbuild.$$
 git diff > /tmp/seedpatch.$$
 # baseline (serialised: the suite binds a fixed port)
-base=$(flock /tmp/mut2/baseline.lock /verif/scripts/baseline.sh $W 2>&1 | grep "^baseline:" | tail -1)
+base=$(flock /tmp/mut3/baseline.lock /verif/scripts/baseline.sh $W 2>&1 | grep "^baseline:" | tail -1)
 # demo
 place=$(head -1 $SRC/demo_test.go | sed -n 's#^// place at: *##p' | tr -d ' \r')
 [ -z "$place" ] && place=$(python3 -c "import json;print(json.load(open('$SRC/meta.json')).get('demo_place',''))")
